@@ -1,0 +1,26 @@
+//go:build verif
+// +build verif
+
+// Package verifhook provides named points at which a verification harness
+// can delay or block a goroutine. Without the "verif" build tag, Point is
+// an empty function.
+package verifhook
+
+import "sync/atomic"
+
+var handler atomic.Value // of func(string)
+
+// Set installs the function called at every Point (nil uninstalls it).
+func Set(f func(name string)) {
+	if f == nil {
+		f = func(string) {}
+	}
+	handler.Store(f)
+}
+
+// Point calls the installed function, if any.
+func Point(name string) {
+	if f, ok := handler.Load().(func(string)); ok {
+		f(name)
+	}
+}
